@@ -169,3 +169,29 @@ Definition py_sort_optkey {A} (key : A -> option Z) (l : list A) : outcome (list
          then Ok (py_sort_asc (fun x => match key x with Some k => k | None => 0 end) l)
          else Raise TypeError
   end.
+
+(* list(range(a, b, c)) for a literal step c <> 0: a, a + c, a + 2c, .. as long as they stay before b *)
+Fixpoint py_range_from (n : nat) (a c : Z) : list Z := match n with O => [] | S k => a :: py_range_from k (a + c) c end.
+Definition py_range (a b c : Z) : list Z :=
+  let len := if 0 <? c then (if a <? b then (b - a + c - 1) / c else 0) else (if b <? a then (a - b - c - 1) / (- c) else 0) in
+  py_range_from (Z.to_nat len) a c.
+(* l[i] = x with Python's index rule (IndexError outside -len .. len-1) *)
+Fixpoint py_set_nth {A} (l : list A) (k : nat) (x : A) : list A :=
+  match l, k with
+  | [], _ => []
+  | _ :: r, O => x :: r
+  | y :: r, S k' => y :: py_set_nth r k' x
+  end.
+Definition py_list_set {A} (l : list A) (i : Z) (x : A) : outcome (list A) :=
+  let n := Z.of_nat (List.length l) in
+  let j := if i <? 0 then i + n else i in
+  if (j <? 0) || (n <=? j) then Raise IndexError else Ok (py_set_nth l (Z.to_nat j) x).
+(* sep.join(l) for a list whose items are None or text: TypeError if an item is None *)
+Fixpoint py_all_some {A} (l : list (option A)) : option (list A) :=
+  match l with
+  | [] => Some []
+  | Some x :: r => match py_all_some r with Some t => Some (x :: t) | None => None end
+  | None :: _ => None
+  end.
+Definition py_join_opt (sep : string) (l : list (option string)) : outcome string :=
+  match py_all_some l with Some t => Ok (join sep t) | None => Raise TypeError end.
